@@ -49,6 +49,7 @@ async def run_history(ctx, tree, kind, ops, n, rnd, stop='clean', crash_at=None,
     """-> dict(ev=[...], writes=int, died=bool).  same_second: every origin response carries the same Date (rock derives its
     slot-chain version from it); otherwise consecutive responses carry Dates one second apart (all in the recent past)."""
     t_date = time.time() - 3600
+    fresh = rnd.choice(['maxage', 'expires', 'heuristic'])
     ev = []
     sizes = {'a': rnd.choice(SIZES), 'b': rnd.choice(SIZES)}
     contacted = set()
@@ -63,7 +64,11 @@ async def run_history(ctx, tree, kind, ops, n, rnd, stop='clean', crash_at=None,
         v = _ver[0]
         L = sizes.get(key, 1000)
         oc.vinfo = (v, key, L)
-        ok = await oc.send(peers.response_head(200, 'OK', [('Content-Length', str(L)), ('Cache-Control', 'max-age=86400'), ('Date', peers.http_date(t_date if same_second else t_date + (v % 3000))),
+        # how the response says it may be reused: explicit max-age, an Expires date, or only a Last-Modified ten days back
+        # (heuristic freshness: a tenth of that age = one day)
+        fr = {'maxage': [('Cache-Control', 'max-age=86400')], 'expires': [('Expires', peers.http_date(time.time() + 86400))],
+              'heuristic': [('Last-Modified', peers.http_date(time.time() - 864000))]}[fresh]
+        ok = await oc.send(peers.response_head(200, 'OK', [('Content-Length', str(L))] + fr + [('Date', peers.http_date(t_date if same_second else t_date + (v % 3000))),
                                                            ('X-Verif-Version', str(v))]) + peers.body_bytes(v, L))
         if ok:
             ev.append({'e': 'Produced', 'v': v, 'key': key, 'len': L})
@@ -151,7 +156,7 @@ async def run_history(ctx, tree, kind, ops, n, rnd, stop='clean', crash_at=None,
     finally:
         await origin.stop()
         sq.stop()
-    return {'ev': ev, 'writes': writes, 'died': died, 'rebuilt': rebuilt, 'alive_after': alive_after, 'kind': kind, 'ops': ops, 'sizes': sizes, 'crash_at': crash_at, 'partial': partial, 'same_second': same_second}
+    return {'ev': ev, 'writes': writes, 'died': died, 'rebuilt': rebuilt, 'alive_after': alive_after, 'kind': kind, 'ops': ops, 'sizes': sizes, 'crash_at': crash_at, 'partial': partial, 'same_second': same_second, 'fresh': fresh}
 
 
 def fill(ev):
